@@ -83,15 +83,15 @@ func init() {
 		},
 		{
 			ID:          "C02",
-			Rules:       []RuleUse{{Rule: "R-GATE", Bodies: []string{"v5", "codec"}, KeyHas: []string{"MergePatch", "sink "}}, use("R-MERGEWIRE", "v5"), {Rule: "R-NIL", Bodies: []string{"v5"}, KeyHas: []string{"doMergePatch", "merge", "prune"}}, {Rule: "R-KEYS", Bodies: []string{"v5"}, KeyHas: []string{"mergeDocs", "pruneDocNulls", "doMergePatch", "(*partialDoc)", "emitter"}}, {Rule: "R-ROOTDISPATCH", Bodies: []string{"v5"}, KeyHas: []string{"MergePatch", "doMergePatch"}}, {Rule: "R-ABSENT", Bodies: []string{"v5"}, KeyHas: []string{"mergeDocs"}}},
-			Explanation: "Decided for the v5 body: R-GATE (both inputs of MergePatch pass json.Valid before the validity-assuming parse), R-MERGEWIRE (MergePatch runs doMergePatch in apply mode with its parameters in order), R-NIL over doMergePatch/merge/mergeDocs/prune* (the nil nodes that stand for null members are never dereferenced), R-KEYS over the merge walk (merged members are neither lost nor duplicated: keys/obj pairing in mergeDocs and partialDoc.set/remove; pruning does not skip members — no loop over keys rewrites keys; a null document is rejected before its stale key list could be used), R-ROOTDISPATCH (whether the patch is an object is never decided from a fixed-offset byte of possibly padded text), R-ABSENT (mergeDocs tells an absent target member from a null one by comma-ok).",
+			Rules:       []RuleUse{{Rule: "R-GATE", Bodies: []string{"v5", "codec"}, KeyHas: []string{"MergePatch", "sink "}}, use("R-MERGEWIRE", "v5"), {Rule: "R-NIL", Bodies: []string{"v5"}, KeyHas: []string{"doMergePatch", "merge", "prune"}}, {Rule: "R-KEYS", Bodies: []string{"v5"}, KeyHas: []string{"mergeDocs", "pruneDocNulls", "doMergePatch", "(*partialDoc)", "emitter"}}, {Rule: "R-ROOTDISPATCH", Bodies: []string{"v5"}, KeyHas: []string{"MergePatch", "doMergePatch"}}, {Rule: "R-ABSENT", Bodies: []string{"v5"}, KeyHas: []string{"mergeDocs"}}, use("R-MERGESHAPE", "v5"), use("R-NOPRUNE", "v5"), use("R-ARRAYS", "v5"), use("R-PATCHWINS", "v5")},
+			Explanation: "Decided for the v5 body: R-GATE (both inputs of MergePatch pass json.Valid before the validity-assuming parse), R-MERGEWIRE (MergePatch runs doMergePatch in apply mode with its parameters in order), R-NIL over doMergePatch/merge/mergeDocs/prune* (the nil nodes that stand for null members are never dereferenced), R-KEYS over the merge walk (merged members are neither lost nor duplicated: keys/obj pairing in mergeDocs and partialDoc.set/remove; pruning does not skip members — no loop over keys rewrites keys; a null document is rejected before its stale key list could be used), R-ROOTDISPATCH (whether the patch is an object is never decided from a fixed-offset byte of possibly padded text), R-ABSENT (mergeDocs tells an absent target member from a null one by comma-ok). R-MERGESHAPE (the skeleton of RFC 7396 as provenance and must-pass-through facts: the mode flag is passed down unchanged; merge returns the patch value when either side is not an object and the merged target otherwise; every non-null patch member is stored under its key on every path, as itself or as merge(current, member); a null member removes the key in apply mode), R-NOPRUNE (a member stored as a new value has its own null members dropped first), R-ARRAYS (arrays are never edited: the array handler reaches no member removal), R-PATCHWINS (a non-object patch replaces the document: those returns derive from the patch parameter only).",
 			NotDecided:  "that the recursive member-by-member result equals RFC 7396 MergePatch(doc, patch) (value-level); the 'non-object document is treated as {}' clause.",
 			Trusted:     commonTrusted, Assumptions: commonAssumptions,
 		},
 		{
 			ID:          "C03",
-			Rules:       []RuleUse{{Rule: "R-GATE", Bodies: []string{"v5", "codec"}, KeyHas: []string{"CreateMergePatch", "sink "}}, {Rule: "R-NIL", Bodies: []string{"v5"}, KeyHas: []string{"createArrayMergePatch", "createObjectMergePatch"}}, use("R-NUM", "v5", "codec"), {Rule: "R-POOLINIT", Bodies: []string{"codec"}, KeyHas: []string{"useNumber"}}, {Rule: "R-MAPORDER", Bodies: []string{"v5"}, KeyHas: []string{"getDiff", "matchesValue"}}},
-			Explanation: "Decided for the v5 body: R-GATE (malformed input to CreateMergePatch is rejected before the validity-assuming parse), R-NIL over the create*MergePatch functions, R-NUM + R-POOLINIT/useNumber (numbers are decoded as literals, compared only by literal equality and written back unchanged — 'number literals are carried over unchanged'; two different literals can never compare equal through a machine number type), R-MAPORDER (the diff's map ranges have no order-sensitive effect).",
+			Rules:       []RuleUse{{Rule: "R-GATE", Bodies: []string{"v5", "codec"}, KeyHas: []string{"CreateMergePatch", "sink "}}, {Rule: "R-NIL", Bodies: []string{"v5"}, KeyHas: []string{"createArrayMergePatch", "createObjectMergePatch"}}, use("R-NUM", "v5", "codec"), {Rule: "R-POOLINIT", Bodies: []string{"codec"}, KeyHas: []string{"useNumber"}}, {Rule: "R-MAPORDER", Bodies: []string{"v5"}, KeyHas: []string{"getDiff", "matchesValue"}}, use("R-CMPSHAPE", "v5")},
+			Explanation: "Decided for the v5 body: R-GATE (malformed input to CreateMergePatch is rejected before the validity-assuming parse), R-NIL over the create*MergePatch functions, R-NUM + R-POOLINIT/useNumber (numbers are decoded as literals, compared only by literal equality and written back unchanged — 'number literals are carried over unchanged'; two different literals can never compare equal through a machine number type), R-MAPORDER (the diff's map ranges have no order-sensitive effect). R-CMPSHAPE (rejection clause and completeness of the walk: mixed array/object roots return the mismatch error; unequal array lengths are rejected; every element pair goes through the object diff, whose error aborts; every successful return of getDiff has passed both the walk over the modified members and the walk over the original that emits removed members as null).",
 			NotDecided:  "the round-trip law MergePatch(A, P) = B and minimality (value-level); deletion-as-null completeness.",
 			Trusted:     commonTrusted, Assumptions: commonAssumptions,
 		},
@@ -118,8 +118,8 @@ func init() {
 		},
 		{
 			ID:          "C07",
-			Rules:       []RuleUse{use("R-MERGEWIRE", "v5"), {Rule: "R-GATE", Bodies: []string{"v5", "codec"}, KeyHas: []string{"MergeMergePatches", "sink "}}, {Rule: "R-KEYS", Bodies: []string{"v5"}, KeyHas: []string{"mergeDocs", "doMergePatch", "(*partialDoc)", "emitter"}}},
-			Explanation: "Decided for the v5 body: R-MERGEWIRE (MergeMergePatches runs doMergePatch in combine mode, constant true, with its parameters in order), R-GATE (both patches pass json.Valid), R-KEYS over mergeDocs (a deletion that is new to the first patch is actually emitted: in the combine branch the null member is stored and its key appended under a membership scan whose flag is initialised inside the iteration).",
+			Rules:       []RuleUse{use("R-MERGEWIRE", "v5"), {Rule: "R-GATE", Bodies: []string{"v5", "codec"}, KeyHas: []string{"MergeMergePatches", "sink "}}, {Rule: "R-KEYS", Bodies: []string{"v5"}, KeyHas: []string{"mergeDocs", "doMergePatch", "(*partialDoc)", "emitter"}}, use("R-MERGESHAPE", "v5"), use("R-NOPRUNE", "v5"), use("R-ARRAYS", "v5"), use("R-PATCHWINS", "v5")},
+			Explanation: "Decided for the v5 body: R-MERGEWIRE (MergeMergePatches runs doMergePatch in combine mode, constant true, with its parameters in order), R-GATE (both patches pass json.Valid), R-KEYS over mergeDocs (a deletion that is new to the first patch is actually emitted: in the combine branch the null member is stored and its key appended under a membership scan whose flag is initialised inside the iteration). R-MERGESHAPE (M1: the combine flag reaches every level of the recursion unchanged; M2: a later non-object value overrides — merge returns the patch value; M3: every non-null member of P2 is stored; M5: a null member is kept as null in combine mode), R-NOPRUNE (nothing is pruned under the combine flag, so deletions of both patches survive), R-ARRAYS + R-PATCHWINS (if P2 is not an object the combined patch is P2, unedited).",
 			NotDecided:  "the composition law over all (D, P1, P2) (value-level).",
 			Trusted:     commonTrusted, Assumptions: commonAssumptions,
 		},
@@ -202,8 +202,8 @@ func init() {
 		},
 		{
 			ID:          "C19",
-			Rules:       []RuleUse{use("R-MERGEWIRE", "legacy"), {Rule: "R-NIL", Bodies: []string{"legacy"}, KeyHas: []string{"doMergePatch", "merge", "prune", "Equal", ".equal", "createArrayMergePatch"}}, {Rule: "R-ABSENT", Bodies: []string{"legacy"}, KeyHas: []string{".equal", "mergeDocs"}}, {Rule: "R-MAPORDER", Bodies: []string{"legacy"}}},
-			Explanation: "Decided on the legacy body: R-MERGEWIRE (mode flags and parameter order of MergePatch / MergeMergePatches), R-NIL over the merge walk and equal (no nil-node dereference), R-ABSENT (equal and mergeDocs tell an absent member from a null one with tested comma-ok lookups), R-MAPORDER (no order-sensitive effect under the map ranges of equal, getDiff, matchesValue).",
+			Rules:       []RuleUse{use("R-MERGEWIRE", "legacy"), {Rule: "R-NIL", Bodies: []string{"legacy"}, KeyHas: []string{"doMergePatch", "merge", "prune", "Equal", ".equal", "createArrayMergePatch"}}, {Rule: "R-ABSENT", Bodies: []string{"legacy"}, KeyHas: []string{".equal", "mergeDocs"}}, {Rule: "R-MAPORDER", Bodies: []string{"legacy"}}, use("R-MERGESHAPE", "legacy"), use("R-NOPRUNE", "legacy"), use("R-ARRAYS", "legacy"), use("R-PATCHWINS", "legacy"), use("R-CMPSHAPE", "legacy")},
+			Explanation: "Decided on the legacy body: R-MERGEWIRE (mode flags and parameter order of MergePatch / MergeMergePatches), R-NIL over the merge walk and equal (no nil-node dereference), R-ABSENT (equal and mergeDocs tell an absent member from a null one with tested comma-ok lookups), R-MAPORDER (no order-sensitive effect under the map ranges of equal, getDiff, matchesValue). R-MERGESHAPE + R-NOPRUNE + R-ARRAYS + R-PATCHWINS + R-CMPSHAPE on the legacy body (same obligations as C02/C07/C03: flag pass-through, merge's return provenance, every non-null member stored, null members removed or kept by mode, new values pruned first in apply mode, arrays untouched, non-object patch wins, CreateMergePatch's rejection clause and both diff walks).",
 			NotDecided:  "the merge, diff and composition laws themselves (value-level).",
 			Trusted:     commonTrusted, Assumptions: commonAssumptions,
 		},
